@@ -174,8 +174,7 @@ def mem_calls(row, tier):
         return [()]
     addrs = MEM_ADDRS_OK + MEM_ADDRS_EDGE + MEM_ADDRS_OOB
     if row.key == "memory.fill":
-        # (values above 0xff are left out: the vendored wazero fills with a wrong byte for them — the C is right there; reported to C31's owner)
-        return [(d, v, n) for d in (0, 5, 65530, 65536, 0xffffffff) for v in (0, 0xab, 0xff) for n in (0, 1, 6, 7, 100, 0xffffffff)]
+        return [(d, v, n) for d in (0, 5, 65530, 65536, 0xffffffff) for v in (0, 0xab, 0x1ff) for n in (0, 1, 6, 7, 100, 0xffffffff)]
     if row.key == "memory.copy":
         base = [(d, s, n) for d in (0, 4, 8, 200, 65530, 65536) for s in (0, 4, 8, 100, 65530, 65536) for n in (0, 1, 4, 8, 64, 300, 0x80000000)]
         # overlapping regions in both directions (WebAssembly: as if through a temporary buffer)
@@ -209,8 +208,7 @@ def calls_for(row, tier):
     if row.cls == "const":
         return [()]
     if row.cls == "grow":
-        # (delta 0xffffffff is left out: the vendored wazero wraps 1 + 0xffffffff to 0 pages and "succeeds"; the spec says -1. Reported to C31's owner)
-        return [(d,) for d in (0, 1, 2, 3, 4, 0x7fffffff, 0x80000000, 0xfffffffe, 0xc0000000, 65535, 65536)]
+        return [(d,) for d in (0, 1, 2, 3, 4, 0x7fffffff, 0x80000000, 0xffffffff, 0xfffffffe, 0xc0000000, 65535, 65536)]
     return int_calls(row, tier)
 
 
